@@ -11,7 +11,7 @@ import enum
 
 import z3
 
-from .values import (Sym, PObj, PList, PDict, PSet, JsonText, Unsupported, V, mk, kind_of, is_sym, z3_of, to_U,
+from .values import (Sym, PObj, PList, PGenList, PDict, PSet, JsonText, Unsupported, V, mk, kind_of, is_sym, z3_of, to_U,
                      py_eq_scalar, truthy_scalar, sym_not, sym_and, sym_or, as_z3_bool, ite_value, Opaque, Foreign)
 
 
@@ -55,11 +55,28 @@ def Ite(c, a, b):
     return ite_value(c.t, a, b)
 
 
+class GenItems:
+    """the elements of a list of unknown length (values.PGenList): only forall / exists are defined over it"""
+    def __init__(self, lst):
+        self.lst = lst
+
+    def __iter__(self):
+        raise SpecError('the elements of a list of unknown length cannot be enumerated: use forall / exists')
+
+    def __len__(self):
+        raise SpecError('len of the elements of a list of unknown length')
+
+
 def forall(domain, f):
+    if isinstance(domain, GenItems):
+        L = domain.lst
+        return And(Implies(mk(L.n.t > 0, 'bool'), f(L.gen)), *[f(w) for w in L.wit])
     return And(*[f(x) for x in domain])
 
 
 def exists(domain, f):
+    if isinstance(domain, GenItems):
+        return Not(forall(domain, lambda x: Not(f(x))))
     return Or(*[f(x) for x in domain])
 
 
@@ -144,6 +161,8 @@ def values(o):
 
 def items(o):
     """python list of the elements of a list / tuple / set value"""
+    if isinstance(o, PGenList):
+        return GenItems(o)
     if isinstance(o, (PList, PSet)):
         return list(o.items)
     return list(o)
@@ -219,6 +238,14 @@ def eq(a, b):
         if a.cls is not b.cls:
             return False
         return eq(a.d, b.d)
+    if isinstance(a, PGenList) or isinstance(b, PGenList):
+        if isinstance(a, PGenList) and isinstance(b, PGenList) and a.core is b.core:
+            return True        # the same (immutable) list, or a snapshot of it
+        other = b if isinstance(a, PGenList) else a
+        if other is None or isinstance(other, (bool, int, float, str, PObj, PDict, PSet, dict, set)) or \
+                (is_sym(other) and kind_of(other) != 'U'):
+            return False       # a list never equals a non-list
+        raise SpecError('eq between a list of unknown length and another value')
     if isinstance(a, (PList, list, tuple)) and isinstance(b, (PList, list, tuple)):
         xa, xb = items(a), items(b)
         if len(xa) != len(xb):
@@ -274,6 +301,8 @@ def ne(a, b):
 
 
 def length(x):
+    if isinstance(x, PGenList):
+        return x.n
     if isinstance(x, (PList, PSet)):
         return len(x.items)
     if is_sym(x) and x.k == 'str':
